@@ -175,21 +175,21 @@ func c02Types() []c02Type {
 			}},
 		{typ: "neuronjson",
 			base: func(u, n string) {
-				vsrv.PostS("node/"+u+"/"+n+"/key/1", `{"bodyid":1,"a":"x"}`)
-				vsrv.PostS("node/"+u+"/"+n+"/key/2", `{"bodyid":2,"a":"y","b":3}`)
+				vsrv.PostS("node/"+u+"/"+n+"/key/1?u=t", `{"bodyid":1,"a":"x"}`)
+				vsrv.PostS("node/"+u+"/"+n+"/key/2?u=t", `{"bodyid":2,"a":"y","b":3}`)
 			},
-			extra: func(u, n string) { vsrv.PostS("node/"+u+"/"+n+"/key/2", `{"bodyid":2,"b":4}`) },
+			extra: func(u, n string) { vsrv.PostS("node/"+u+"/"+n+"/key/2?u=t", `{"bodyid":2,"b":4}`) },
 			reads: func(u, n string) []string {
 				return []string{"all", "keys", "key/1", "key/2", "key/3", "fields", "json_schema", "schema", "schema_batch"}
 			},
 			valid: func(n string) []c02Req {
 				return []c02Req{
-					{"POST", "key/1", []byte(`{"bodyid":1,"a":"changed"}`), true},
-					{"POST", "key/3", []byte(`{"bodyid":3,"c":true}`), true},
-					{"DELETE", "key/2", nil, true},
-					{"POST", "keyvalues", []byte(`{"1":{"bodyid":1,"z":9}}`), true},
-					{"POST", "schema", []byte(`{"x":1}`), true},
-					{"POST", "json_schema", []byte(`{"type":"object"}`), true},
+					{"POST", "key/1?u=t", []byte(`{"bodyid":1,"a":"changed"}`), true},
+					{"POST", "key/3?u=t", []byte(`{"bodyid":3,"c":true}`), true},
+					{"DELETE", "key/2?u=t", nil, true},
+					{"POST", "keyvalues?u=t", []byte(`{"1":{"bodyid":1,"z":9}}`), true},
+					{"POST", "schema?u=t", []byte(`{"x":1}`), true},
+					{"POST", "json_schema?u=t", []byte(`{"type":"object"}`), true},
 					{"POST", "query", []byte(`{"a":"x"}`), false},
 				}
 			}},
